@@ -40,7 +40,7 @@ IDENT = re.compile(r"^[A-Za-z_][A-Za-z0-9_]*(\.[A-Za-z_][A-Za-z0-9_]*)*$")
 SHAPES = ["direct", "fnarg", "fnarg_nested", "partial", "batch"]
 EVOLUTIONS = ["unchanged", "edited", "removed", "renamed", "plain", "reclustered", "bumped", "edited_twice", "bumped_odd",
               "reclustered_same_version", "signature_same_version", "signature_swapped", "signature_prepended", "aliased_same_version", "moved_into_package_shim"]
-ODD_VERSIONS = ["a::b", "1:2#3", "1.link", "x#y", "v=1+2", "@", ":", "1.0-rc.1"]
+ODD_VERSIONS = ["a::b", "1:2#3", "1.link", "x#y", "v=1+2", "@", ":", "1.0-rc.1", ""]  # (the empty string is a version like any other)
 
 
 def cases(tier, seed):
